@@ -115,6 +115,13 @@ def replay(run, tk, o, cex, paths):
                     if r['circuit_accepts'] and not r['value_lt_p']:
                         run.violation('%s: comparator ignores digit %d: value 2^%d >= p accepted' % (o['name'], w - 1, w - 1), {'bits_le': bits}, key='c03-comparator')
                         return
+            P = int(d['Field'])
+            for v in (P - 1, P - 2, 0, 1):
+                bits = [(v >> i) & 1 for i in range(tk['n'])]
+                r = bitgadgets.rmod_replay(d, bits)
+                if r['circuit_accepts'] != r['value_lt_p']:
+                    run.violation('%s: the comparator %s the canonical value %s' % (o['name'], 'accepts' if r['circuit_accepts'] else 'rejects', 'p-1' if v == P - 1 else v), {'value': str(v), 'bits_le': bits}, key='c03-comparator')
+                    return
             run.inconclusive.append(o['name'] + ': counterexample did not reproduce')
             return
         d = json.load(open(tk['path']))
